@@ -73,6 +73,10 @@ def col(kind, j, r):
         return (np.array(['2020-01-02', '2020-01-01', '2021-05-05'], dtype='datetime64[D]') + np.timedelta64(j, 'D'))[:r]
     if kind == 'N':
         return (np.array(['2020-01-02', 'NaT', '2020-01-01'], dtype='datetime64[D]') + np.timedelta64(j, 'D'))[:r]
+    if kind == 'T':
+        return (np.array([3, 0, 5], dtype='timedelta64[D]') + np.timedelta64(j, 'D'))[:r]
+    if kind == 'Z':
+        return (np.array([3, 'NaT', 0], dtype='timedelta64[D]') + np.timedelta64(j, 'D'))[:r]
     raise ValueError(kind)
 
 
@@ -104,8 +108,14 @@ def frame_cases(tier):
             yield (kinds, r)
 
 
+    # timedelta64 columns (with and without NaT): only the missing-cell clause is judged for them (oracle: UNSPEC otherwise)
+    for kinds in (('T',), ('Z',), ('Z', 'Z'), ('T', 'Z'), ('Z', 'T')):
+        for r in (2, 3):
+            yield (kinds, r)
+
+
 def series_cases(tier):
-    for kind in KINDS:
+    for kind in KINDS + ('T', 'Z'):
         for j in (0, 1):
             for r in (0, 1, 2, 3):
                 yield ('S', kind, j, r)
@@ -125,6 +135,8 @@ def is_missing(x):
 
 
 def _numlike(x):
+    if isinstance(x, np.timedelta64):        # (a subclass of np.signedinteger)
+        return False
     return isinstance(x, (bool, np.bool_, int, float, complex, np.integer, np.floating, np.complexfloating)) and not is_missing(x)
 
 
@@ -158,6 +170,8 @@ def vclass(v):
         base = 'bool' if k == 'b' else 'num'
     elif k == 'M':
         base = 'date'
+    elif k == 'm':
+        base = 'duration'
     elif k == 'U':
         base = 'str'
     else:
@@ -232,6 +246,8 @@ def oracle(op, v, skipna, ddof=0):
     has_missing = any(is_missing(x) for x in v)
     if has_missing and not skipna:
         return MISSING
+    if k == 'm':
+        return UNSPEC      # durations: the property's reference values are stated for numbers, strings and dates; only the missing-cell clause above is judged
     cells = _nm(v)
     numeric = k in 'biufc' or (k == 'O' and all(_numlike(x) for x in cells))
     allstr = k == 'U' or (k == 'O' and len(cells) > 0 and all(isinstance(x, str) for x in cells))
@@ -428,6 +444,8 @@ def eval_frame_case(rep, case, tier='quick'):
         if 'C' in kinds:
             # frames holding a complex column are a class of their own: all-numeric columns (complex row dtype) or mixed with non-numeric columns (object row dtype)
             fam += '+complex-column:' + ('numeric-frame' if all(c.dtype.kind in 'biufc' for c in cols) else 'mixed-frame')
+        if 'T' in kinds or 'Z' in kinds:
+            fam += '+duration-column'      # frames holding a timedelta64 column: a class of their own
         tag = f'{op}' + (f'[ddof={kw["ddof"]}]' if 'ddof' in kw else '')
         rp = dict(base_rp, op=op, kw=kw, axis=axis, skipna=skipna)
         outs = []
